@@ -1301,6 +1301,19 @@ struct StreamSim : Sim {
                 update_call(0, n);
                 fin_call(tag);
                 Pass cc = finish(tag);
+                // (d) a pending partial block of q bytes, then one piece of 2^32 + y bytes (y small: the piece's length modulo 2^32 is
+                // smaller than what the pending block still needs), then the rest
+                scrub();
+                init_call();
+                uint64_t q = 1 + (uint64_t) (p.get("c0_phase") % 15), y = (uint64_t) (p.get("c0_hugelen") % 16);
+                if ((p.get("c0_hugelen") >> 4) & 1)
+                        y = (uint64_t) (p.get("c0_hugelen") % (16 - q)); // strictly less than the room left in the pending block
+                update_call(0, q);
+                update_call(q, (1ull << 32) + y);
+                if (q + (1ull << 32) + y < n)
+                        update_call(q + (1ull << 32) + y, n - (q + (1ull << 32) + y));
+                fin_call(tag);
+                Pass dd = finish(tag);
                 e.obs_bytes(0x6a0 + ci, b.tag.data(), b.tag.size());
                 e.obs(0x6b0 + ci, b.outh);
                 if (a.tag != b.tag || a.outh != b.outh)
@@ -1313,6 +1326,11 @@ struct StreamSim : Sim {
                                     strfmt("%s: a single update call over %llu bytes disagrees with the same message streamed in pieces below 2^32 bytes (tag %s vs %s, output %s)",
                                            site.c_str(), (unsigned long long) n, hex(cc.tag.data(), cc.tag.size()).c_str(), hex(b.tag.data(), b.tag.size()).c_str(),
                                            cc.outh == b.outh ? "equal" : "differs"));
+                if (dd.tag != b.tag || dd.outh != b.outh)
+                        e.violation("C07", "huge-update-after-partial", "C07/huge-update-after-partial/" + site,
+                                    strfmt("%s: update(%llu) + update(2^32 + %llu) + rest disagrees with the same %llu-byte message streamed in pieces below 2^32 bytes (tag %s vs %s, output %s)",
+                                           site.c_str(), (unsigned long long) q, (unsigned long long) y, (unsigned long long) n, hex(dd.tag.data(), dd.tag.size()).c_str(),
+                                           hex(b.tag.data(), b.tag.size()).c_str(), dd.outh == b.outh ? "equal" : "differs"));
                 e.check_buf(tag, "gcm huge");
                 e.check_buf(c.ctx, "gcm huge");
                 e.check_buf(c.key_data, "gcm huge");
